@@ -152,6 +152,13 @@ class World:
                 g = rep.create_genotype(self.random)
                 self.pool.append(g)
                 return Event(k, op, [], [len(self.pool) - 1])
+            if k == "init":
+                # the depth-taking initialisers are documented for the tree representation only
+                kind = op[1] if (self.rep_kind == "tree" or op[1] in ("standard", "generic")) else "standard"
+                inds = list(self.initializer(kind).initialize(None, rep, self.random, op[2]))
+                first = len(self.pool)
+                self.pool.extend(i.genotype for i in inds)
+                return Event(k, op, [], list(range(first, len(self.pool))))
             if k == "burn":
                 for _ in range(op[1]):
                     self.random.randint(0, 100)
@@ -181,6 +188,33 @@ class World:
                 raise
             return Event(k, op, [], [], exc=e)
         raise ValueError(op)
+
+    def initializer(self, kind):
+        from geneticengine.algorithms.gp.operators.initializers import HalfAndHalfInitializer, StandardInitializer
+        from geneticengine.representations.common import GenericPopulationInitializer
+        from geneticengine.representations.tree.operators import (
+            FullInitializer,
+            GrowInitializer,
+            PositionIndependentGrowInitializer,
+            RampedHalfAndHalfInitializer,
+        )
+
+        d = self.max_depth
+        if kind == "standard":
+            return StandardInitializer()
+        if kind == "generic":
+            return GenericPopulationInitializer()
+        if kind == "full":
+            return FullInitializer(d)
+        if kind == "grow":
+            return GrowInitializer()
+        if kind == "pigrow":
+            return PositionIndependentGrowInitializer(d)
+        if kind == "ramped":
+            return RampedHalfAndHalfInitializer(d)
+        if kind == "halfandhalf":
+            return HalfAndHalfInitializer(FullInitializer(d).initialize, GrowInitializer().initialize)
+        raise ValueError(kind)
 
     def phenotype(self, i):
         return self.rep.genotype_to_phenotype(self.pool[i])
@@ -229,7 +263,7 @@ class World:
 
 
 # ---- strategies -------------------------------------------------------------------------
-def ops_strategy(max_ops=10, with_search=False, with_burn=False, with_map=True):
+def ops_strategy(max_ops=10, with_search=False, with_burn=False, with_map=True, with_init=False):
     idx = st.integers(0, 30)
     alts = [
         st.just(["create"]),
@@ -239,6 +273,8 @@ def ops_strategy(max_ops=10, with_search=False, with_burn=False, with_map=True):
     ]
     if with_map:
         alts.append(st.builds(lambda i: ["map", i], idx))
+    if with_init:
+        alts.append(st.builds(lambda k, n: ["init", k, n], st.sampled_from(["standard", "generic", "full", "grow", "pigrow", "ramped", "halfandhalf"]), st.integers(1, 3)))
     if with_burn:
         alts.append(st.builds(lambda n: ["burn", n], st.integers(1, 5)))
     if with_search:
@@ -264,6 +300,7 @@ def world_cases(
     with_search=False,
     with_burn=False,
     with_map=True,
+    with_init=False,
 ):
     spec = draw(specs(flags or Flags()))
     return {
@@ -273,5 +310,5 @@ def world_cases(
         "depth_extra": draw(st.sampled_from(list(depth_extras))),
         "seed": draw(st.integers(0, 2**31)),
         "gene_length": draw(st.sampled_from([1, 2, 5, 16, 64, 256])),
-        "ops": draw(ops_strategy(max_ops, with_search, with_burn, with_map)),
+        "ops": draw(ops_strategy(max_ops, with_search, with_burn, with_map, with_init)),
     }
